@@ -71,17 +71,40 @@ theorem keeps_bind (P : S → Prop) (r : Except (Err × S) S) (f : S → Except 
   | ok σ => exact hf σ hr
   | error q => exact hr
 
-/-- the two facts together, in the form the tie theorems state: at a raise the record satisfies `P` and the plain
-    translation raises the same class; on success the plain translation returns the record seen through `p` -/
-theorem split_outcome (p : S → S') (P : S → Prop) (r : Except (Err × S) S) (g : M S') (hsim : forget p r = g)
-    (hk : Keeps P r) :
-    match r with
-    | .error (err, σ) => P σ ∧ g = .error err
-    | .ok σ => P σ ∧ g = .ok (p σ) := by
-  subst hsim
+/-- the record *at a raise* satisfies `P` (nothing is said about a normal return) -/
+def KeepsErr {S : Type} (P : S → Prop) : Except (Err × S) S → Prop
+  | .ok _ => True
+  | .error (_, σ) => P σ
+
+theorem keepsErr_ok (P : S → Prop) (σ : S) : KeepsErr P (.ok σ) := trivial
+
+theorem keepsErr_ite (P : S → Prop) (c : Prop) [Decidable c] (a b : Except (Err × S) S) (ha : KeepsErr P a)
+    (hb : KeepsErr P b) : KeepsErr P (if c then a else b) := by
+  split <;> assumption
+
+theorem keepsErr_inState_bind (P : S → Prop) (σ : S) (m : M T) (f : T → Except (Err × S) S) (hσ : P σ)
+    (hf : ∀ v, KeepsErr P (f v)) : KeepsErr P (inState σ m >>= f) := by
+  cases m with
+  | ok v => exact hf v
+  | error e => exact hσ
+
+/-- a loop that keeps `P` whatever its outcome, then statements that keep it at a raise -/
+theorem keepsErr_bind (P : S → Prop) (r : Except (Err × S) S) (f : S → Except (Err × S) S) (hr : Keeps P r)
+    (hf : ∀ σ, P σ → KeepsErr P (f σ)) : KeepsErr P (r >>= f) := by
   cases r with
-  | ok σ => exact ⟨hk, rfl⟩
-  | error q => exact ⟨hk, rfl⟩
+  | ok σ => exact hf σ hr
+  | error q => exact hr
+
+/-- simulation and frame at a raise together, in the form the tie theorems state -/
+theorem outcome_error (p : S → S') (P : S → Prop) (r : Except (Err × S) S) (g : M S') (hsim : forget p r = g)
+    (hk : KeepsErr P r) (err : Err) (σ : S) (h : r = .error (err, σ)) : P σ ∧ g = .error err := by
+  subst hsim h
+  exact ⟨hk, rfl⟩
+
+theorem outcome_ok (p : S → S') (r : Except (Err × S) S) (g : M S') (hsim : forget p r = g) (σ : S)
+    (h : r = .ok σ) : g = .ok (p σ) := by
+  subst hsim h
+  rfl
 
 end Py.R
 
